@@ -52,6 +52,9 @@ pub struct Crowd {
     pub cfg: Cfg,
     pub n: usize,
     pub keep: bool,
+    /// server owns two addresses, the listener is a wildcard, clients
+    /// alternate between the two destination addresses
+    pub two_addr: bool,
     pub ops: Vec<COp>,
     pub seed: u64,
 }
@@ -93,12 +96,13 @@ impl Crowd {
             cfg,
             n,
             keep: rng.coin(),
+            two_addr: rng.chance(0.4),
             ops,
             seed,
         }
     }
     pub fn to_json(&self) -> Value {
-        json!({"kind": "crowd", "cfg": self.cfg.to_json(), "n": self.n, "keep": self.keep, "seed": self.seed,
+        json!({"kind": "crowd", "cfg": self.cfg.to_json(), "n": self.n, "keep": self.keep, "two_addr": self.two_addr, "seed": self.seed,
                "ops": self.ops.iter().map(|o| o.code()).collect::<Vec<_>>()})
     }
     pub fn from_json(v: &Value) -> Crowd {
@@ -106,6 +110,7 @@ impl Crowd {
             cfg: Cfg::from_json(&v["cfg"]),
             n: v["n"].as_u64().unwrap_or(1) as usize,
             keep: v["keep"].as_bool().unwrap_or(true),
+            two_addr: v["two_addr"].as_bool().unwrap_or(false),
             seed: v["seed"].as_u64().unwrap_or(0),
             ops: v["ops"]
                 .as_array()
@@ -115,7 +120,7 @@ impl Crowd {
     }
     fn canon(&self) -> String {
         let ops: Vec<String> = self.ops.iter().map(|o| o.code()).collect();
-        format!("crowd:{}|n{}|{}|{}", self.cfg.canon(), self.n, if self.keep { 'k' } else { 'd' }, ops.join(","))
+        format!("crowd:{}|n{}|{}{}|{}", self.cfg.canon(), self.n, if self.keep { 'k' } else { 'd' }, if self.two_addr { "2" } else { "" }, ops.join(","))
     }
 }
 
@@ -152,11 +157,13 @@ fn exec_inner(c: &Crowd, res: &mut Res) {
         .retx_threshold(c.cfg.thr)
         .retx_max(c.cfg.max);
     let hosts: Vec<Vec<IpAddr>> = match c.cfg.layout {
-        Layout::V6 => vec![vec![ip("fd00::1")], vec![ip("fd00::2")]],
-        _ => vec![vec![ip("10.0.0.1")], vec![ip("10.0.1.1")]],
+        Layout::V6 => vec![vec![ip("fd00::1")], vec![ip("fd00::2"), ip("fd00::3")]],
+        _ => vec![vec![ip("10.0.0.1")], vec![ip("10.0.1.1"), ip("10.0.1.2")]],
     };
     let mut w = World::new(kc, &hosts, |_| {});
     let dst = SocketAddr::new(hosts[1][0], 7000);
+    let dst2 = SocketAddr::new(hosts[1][1], 7000);
+    let laddr = if c.two_addr { SocketAddr::new(if dst.is_ipv4() { ip("0.0.0.0") } else { ip("::") }, 7000) } else { dst };
     let client_ip = hosts[0][0];
     let b = c.cfg.backlog;
     let count = |res: &mut Res, k: &str, n: u64| {
@@ -168,11 +175,12 @@ fn exec_inner(c: &Crowd, res: &mut Res) {
     };
 
     w.cur(1);
-    let listener: Scoped<TcpListener> = w.scoped(1, now(TcpListener::bind(dst)).expect("bind"));
+    let listener: Scoped<TcpListener> = w.scoped(1, now(TcpListener::bind(laddr)).expect("bind"));
     let mut listener = Some(listener);
     let mut slots: Vec<(Rc<RefCell<Slot>>, Rc<Notify>)> = vec![];
     let mut streams: Vec<Option<Scoped<TcpStream>>> = (0..c.n).map(|_| None).collect();
-    for _ in 0..c.n {
+    for ci in 0..c.n {
+        let dst = if c.two_addr && ci % 2 == 1 { dst2 } else { dst };
         let slot = Rc::new(RefCell::new(Slot::default()));
         let cancel = Rc::new(Notify::new());
         let (s2, c2) = (slot.clone(), cancel.clone());
@@ -193,7 +201,7 @@ fn exec_inner(c: &Crowd, res: &mut Res) {
     let attempt_locals: BTreeSet<SocketAddr> = turmoil_net::netstat(client_ip)
         .entries
         .iter()
-        .filter(|e| e.proto == Proto::Tcp && e.peer == Some(dst))
+        .filter(|e| e.proto == Proto::Tcp && (e.peer == Some(dst) || e.peer == Some(dst2)))
         .map(|e| e.local)
         .collect();
 
@@ -337,7 +345,7 @@ fn exec_inner(c: &Crowd, res: &mut Res) {
     // pairing
     let mut seen = BTreeSet::new();
     for (la, pa) in &accepted {
-        if *la != dst || !attempt_locals.contains(pa) {
+        if (*la != dst && !(c.two_addr && *la == dst2)) || !attempt_locals.contains(pa) {
             res.complaint = Some(("accept-unknown-connection".into(), format!("accept returned local={la} peer={pa}; no such connect attempt")));
             return;
         }
